@@ -278,6 +278,20 @@ def draw_app(draw, cfg, depth=2, entries=None, only=None, arg_depth=2):
     ent = only or draw(st.sampled_from(cat))
     sigma = {}
     premises = []
+    # argument aliasing: distinct schema variables bound to the *same* pattern (equal premises, p -> p shapes, ...) are the
+    # inputs where shortcuts keyed on equality of arguments go wrong; independent draws almost never produce them
+    alias = draw(st.sampled_from(['none', 'none', 'none', 'cycle2', 'random', 'same']))
+    pool = [draw_arg_pattern(draw, cfg, draw(st.integers(0, arg_depth))) for _ in range({'cycle2': 2, 'same': 1}.get(alias, 0))]
+    counter = [0]
+
+    def new_arg():
+        counter[0] += 1
+        if pool:
+            return pool[(counter[0] - 1) % len(pool)]
+        if alias == 'random' and sigma and draw(st.booleans()):
+            return draw(st.sampled_from(list(sigma.values())))
+        return draw_arg_pattern(draw, cfg, draw(st.integers(0, arg_depth)))
+
     for a in ent.args:
         if not isinstance(a, PF):
             continue
@@ -299,14 +313,14 @@ def draw_app(draw, cfg, depth=2, entries=None, only=None, arg_depth=2):
         else:
             for v in schema_vars(a.shape):
                 if v not in sigma:
-                    sigma[v] = draw_arg_pattern(draw, cfg, draw(st.integers(0, arg_depth)))
+                    sigma[v] = new_arg()
             premises.append(('axiom', subst_sugared(a.shape, sigma)))
     for a in ent.args:
         if isinstance(a, PAT) and a.var[1] not in sigma:
-            sigma[a.var[1]] = draw_arg_pattern(draw, cfg, draw(st.integers(0, arg_depth)))
+            sigma[a.var[1]] = new_arg()
     for v in schema_vars(ent.conc):
         if v not in sigma:
-            sigma[v] = draw_arg_pattern(draw, cfg, draw(st.integers(0, arg_depth)))
+            sigma[v] = new_arg()
     return App(ent, sigma, premises)
 
 
